@@ -476,12 +476,14 @@ func checkRestoreEvent(c *report.Ctx) {
 	name := an.FuncName(f)
 	n := 0
 	var d *ssa.Defer
+	// the event is sent by the helper of the pinned tree, or directly (the helper written out in the closure)
+	emitters := []string{"L/rapid.sendRestoreRuntimeDoneLogEvent", "L/interop.EventsAPI.SendRestoreRuntimeDone"}
 	for _, g := range an.WithAnon(f) {
-		n += len(an.CallsTo(g, "L/rapid.sendRestoreRuntimeDoneLogEvent"))
+		n += len(an.CallsTo(g, emitters...))
 	}
 	an.AllInstrs(f, func(in ssa.Instruction) {
 		if x, ok := in.(*ssa.Defer); ok {
-			if cl := deferClosure(x); cl != nil && len(an.CallsTo(cl, "L/rapid.sendRestoreRuntimeDoneLogEvent")) == 1 {
+			if cl := deferClosure(x); cl != nil && len(an.CallsTo(cl, emitters...)) == 1 {
 				d = x
 			}
 		}
@@ -491,6 +493,16 @@ func checkRestoreEvent(c *report.Ctx) {
 	// status error iff returned error non-nil: every exit returning a non-nil error has 'error' as the only reaching value
 	// the status variable: the local whose value the deferred closure hands to the restore-runtime-done event
 	status := emittedCell(f, "L/rapid.sendRestoreRuntimeDoneLogEvent", 1)
+	if status == nil {
+		// written out: the local whose value the closure stores into the event's Status field
+		for _, g := range f.AnonFuncs {
+			for _, st := range an.Stores(g, "L/interop.RestoreRuntimeDoneData", "Status") {
+				if a, ok := freeVarBinding(g, st.Val).(*ssa.Alloc); ok {
+					status = a
+				}
+			}
+		}
+	}
 	if status == nil {
 		c.Unresolved("ANCHOR", name+"/restoreStatus", "status variable not found")
 		return
